@@ -40,8 +40,11 @@ void GMGPolar::solve()
 
     number_of_iterations_ = 0;
 
-    double initial_residual_norm;
-    double current_residual_norm, current_relative_residual_norm;
+    /* Residual norms are only computed when a tolerance is enabled. */
+    double initial_residual_norm          = 0.0;
+    double current_residual_norm          = 0.0;
+    double current_relative_residual_norm = 0.0;
+    mean_residual_reduction_factor_       = 1.0; /* No reduction measured (yet). */
 
     while (number_of_iterations_ < max_iterations_) {
 
@@ -191,8 +194,10 @@ void GMGPolar::solve()
         /* -------------------------------- */
         /* Compute the reduction factor rho */
         /* -------------------------------- */
-        mean_residual_reduction_factor_ =
-            std::pow(current_residual_norm / initial_residual_norm, 1.0 / number_of_iterations_);
+        if (!residual_norms_.empty() && initial_residual_norm > 0.0) {
+            mean_residual_reduction_factor_ =
+                std::pow(current_residual_norm / initial_residual_norm, 1.0 / number_of_iterations_);
+        }
 
         if (verbose_ > 0) {
             std::cout << "\nTotal Iterations: " << number_of_iterations_ << std::endl;
